@@ -902,6 +902,24 @@ struct ShadowPass {
 
 impl VisitMut for ShadowPass {
     fn visit_block_mut(&mut self, b: &mut syn::Block) {
+        let was_active = self.active;
+        self.visit_block_inner(b);
+        if !was_active && self.active {
+            // the renamed binding goes out of scope with the block that declared it
+            self.active = false;
+            self.done = true;
+        }
+    }
+    fn visit_expr_path_mut(&mut self, p: &mut syn::ExprPath) {
+        if self.active && p.path.is_ident(&self.from) {
+            p.path = syn::Ident::new(&self.to, Span::call_site()).into();
+        }
+    }
+    fn visit_macro_mut(&mut self, _m: &mut syn::Macro) {}
+}
+
+impl ShadowPass {
+    fn visit_block_inner(&mut self, b: &mut syn::Block) {
         for s in b.stmts.iter_mut() {
             if let syn::Stmt::Local(l) = s {
                 // visit initializer with the *old* binding first
@@ -945,10 +963,38 @@ impl VisitMut for ShadowPass {
             self.visit_stmt_mut(s);
         }
     }
-    fn visit_expr_path_mut(&mut self, p: &mut syn::ExprPath) {
-        if self.active && p.path.is_ident(&self.from) {
-            p.path = syn::Ident::new(&self.to, Span::call_site()).into();
+}
+
+// ------------------------------------------------------------------------------------------
+// shorthand struct fields (`S { x }`) whose expression / binding was renamed by a pass are printed in full (`S { x: x2 }`)
+// ------------------------------------------------------------------------------------------
+
+struct ShorthandFixPass;
+
+impl VisitMut for ShorthandFixPass {
+    fn visit_field_value_mut(&mut self, fv: &mut syn::FieldValue) {
+        if fv.colon_token.is_none() {
+            let same = match (&fv.member, &fv.expr) {
+                (syn::Member::Named(m), syn::Expr::Path(p)) => p.qself.is_none() && p.path.is_ident(m),
+                _ => false,
+            };
+            if !same {
+                fv.colon_token = Some(Default::default());
+            }
         }
+        visit_mut::visit_field_value_mut(self, fv);
+    }
+    fn visit_field_pat_mut(&mut self, fp: &mut syn::FieldPat) {
+        if fp.colon_token.is_none() {
+            let same = match (&fp.member, &*fp.pat) {
+                (syn::Member::Named(m), syn::Pat::Ident(pi)) => pi.ident == *m,
+                _ => false,
+            };
+            if !same {
+                fp.colon_token = Some(Default::default());
+            }
+        }
+        visit_mut::visit_field_pat_mut(self, fp);
     }
     fn visit_macro_mut(&mut self, _m: &mut syn::Macro) {}
 }
@@ -2039,6 +2085,8 @@ pub fn apply_to_fn(
             return Err(format!("lost anchor: no shadowing `let {}` to rename", from));
         }
         bump(counts, "R15.rename_shadow");
+        // before any later pass prints and re-parses the body: a renamed shorthand field must be written in full
+        ShorthandFixPass.visit_block_mut(&mut f.block);
     }
     for (name, ty) in &cfg.let_types {
         let t: syn::Type = syn::parse_str(ty).map_err(|e| format!("bad recipe: let_types: {}", e))?;
@@ -2053,6 +2101,7 @@ pub fn apply_to_fn(
     {
         let mut p = RawIdentPass { counts };
         p.visit_block_mut(&mut f.block);
+        ShorthandFixPass.visit_block_mut(&mut f.block);
     }
     // R16
     {
@@ -2185,6 +2234,10 @@ pub fn apply_to_fn(
     if cfg.anchors.iter().any(|(k, _, _)| k == "entry") {
         f.block.stmts.insert(0, anchor_stmt("entry", "e", 0));
         info.anchors.push("entry_e_0".into());
+    }
+    {
+        let mut p = ShorthandFixPass;
+        p.visit_item_fn_mut(f);
     }
     info.fingerprint = fingerprint(&f.sig);
     f.vis = syn::Visibility::Inherited;
